@@ -159,3 +159,67 @@ def _flat(v, depth):
 
 def diff_state(a, b):
     return sorted(k for k in set(a) | set(b) if a.get(k) != b.get(k))
+
+
+def global_roots(prefix="pycaption"):
+    """yields every object that global_state() digests (module globals, class attributes, defaults, closure cells)"""
+    for mname, mod in sorted(sys.modules.items()):
+        if not (mname == prefix or mname.startswith(prefix + ".")) or mod is None:
+            continue
+        for gname, val in vars(mod).items():
+            if gname.startswith("__") or isinstance(val, types.ModuleType):
+                continue
+            if isinstance(val, type):
+                if val.__module__ != mname:
+                    continue
+                for aname, aval in vars(val).items():
+                    f = aval.__func__ if isinstance(aval, (staticmethod, classmethod)) else aval
+                    if isinstance(f, types.FunctionType):
+                        yield f.__defaults__
+                        yield f.__kwdefaults__
+                        if f.__closure__:
+                            for c in f.__closure__:
+                                if _cell_ok(c):
+                                    yield c.cell_contents
+                    elif not aname.startswith("__") and not isinstance(f, property):
+                        yield aval
+            elif isinstance(val, types.FunctionType):
+                if val.__module__ == mname:
+                    yield val.__defaults__
+                    yield val.__kwdefaults__
+            else:
+                yield val
+
+
+def mutable_objects(root, prefix="pycaption"):
+    """id -> object for every mutable container (dict / list / set / deque, and instances of classes defined in the
+    library other than its geometry value objects) reachable from root"""
+    seen = {}
+    visited = set()
+    stack = [root]
+    while stack:
+        o = stack.pop()
+        if o is None or isinstance(o, _PRIMS + (enum.Enum, type, types.FunctionType, types.BuiltinFunctionType, types.ModuleType, types.MethodType)):
+            continue
+        if id(o) in visited:
+            continue
+        visited.add(id(o))
+        mod = type(o).__module__ or ""
+        if mod.startswith(prefix + ".geometry") or mod.startswith("bs4") or mod.startswith("lxml") or mod.startswith("re"):
+            continue
+        if isinstance(o, dict):
+            seen[id(o)] = o
+            stack.extend(o.values())
+            if getattr(o, "__dict__", None):
+                stack.extend(vars(o).values())
+        elif isinstance(o, (list, set)) or type(o).__name__ == "deque":
+            seen[id(o)] = o
+            stack.extend(o)
+            if getattr(o, "__dict__", None):
+                stack.extend(vars(o).values())
+        elif isinstance(o, (tuple, frozenset)):
+            stack.extend(o)
+        elif mod.startswith(prefix) and getattr(o, "__dict__", None) is not None:
+            seen[id(o)] = o
+            stack.extend(vars(o).values())
+    return seen
